@@ -428,6 +428,13 @@ Definition client_try_write (s : session) (e : input_ev) : step_result :=
 
 End WithProfile.
 
+(* impl From<&str> for KeyboardLayout (core/client.rs) followed by `as u32`: the layout code of a layout name given
+   as its UTF-8 bytes; "fr" => French, "us" => US, anything else => US (the arms are disjoint: their order is immaterial) *)
+Fixpoint kbd_name_eqb (a b : bytes) : bool :=
+  match a, b with [], [] => true | x :: ta, y :: tb => (x =? y) && kbd_name_eqb ta tb | _, _ => false end.
+Definition keyboard_layout_from (name : bytes) : N :=
+  if kbd_name_eqb name [102; 114] then 1036 else if kbd_name_eqb name [117; 115] then 1033 else 1033.
+
 Definition init_session_io (uid io w h lay : N) (name : bytes) : session :=
   mkSession SDemandActive uid io w h lay None name.
 Definition init_session (uid w h lay : N) (name : bytes) : session := init_session_io uid 1003 w h lay name.
